@@ -182,3 +182,113 @@ def structural(prop="C17"):
     out.append(OR(id=f"{prop}.S.PageNode.__init__.ordered_subpages_from_metadata", status=PROVED if ok else UNKNOWN, kind="S", role="pre", backend="ast", target="ford.pagetree.PageNode.__init__",
                   desc="ordered_subpages is the ordered_subpage metadata in the order given, without index.md", detail="" if ok else f"found {ord_}"))
     return out
+
+
+# ------------------------------------------------------------------ PagetreePage.writeout: what is copied next to a page
+RESOLVE = z3.Function("PATH_RESOLVE", S, S)
+INSIDE = z3.Function("RELATIVE_TO_SUCCEEDS", S, S, B)       # a.relative_to(b) does not raise
+DIR_OK = z3.Function("COPYTREE_SUCCEEDS", I, B)             # copytree for entry k of copy_subdir returns
+FILE_OK = z3.Function("COPY_SUCCEEDS", I, B)
+DIRS = z3.Function("COPIED_DIRS_AFTER", I, SI)              # ghost: (source, destination) pairs handed to copytree / shutil.copy that returned
+CFILES = z3.Function("COPIED_FILES_AFTER", I, SI)
+SEP = z3.StringVal("\x00->\x00")
+
+
+def writeout_copies(prop="C17"):
+    c = base(Contract("ford.output", "PagetreePage.writeout", prop))
+    c.dropped.append("the directory creation and the HTML write (super().writeout()) are opaque calls that return")
+    c.fields.update({"data": "dict:str:str", "obj": "ref:PageNode", "location": "str", "page_dir": "str", "copy_subdir": "list:str", "files": "list:str", "filename": "str"})
+    STEM = z3.Function("PATH_STEM", S, S)
+    c.str_attr = lambda eng, path, o, name: SStr(STEM(o.t)) if name == "stem" else None
+    c.methods["mkdir"] = lambda eng, path, e, args, recv: SNone()
+    c.calls["super"] = lambda eng, path, e, args, recv: SOpaque("super")
+    c.methods["writeout"] = lambda eng, path, e, args, recv: SNone()
+    c.globals["USER_WRITABLE_ONLY"] = SConst(0o755)
+    c.globals["PagetreePage"] = SOpaque("class")
+    c.param("self", TRef("PagetreePage"))
+    c.param("ghost_dirs", TList("str"))           # ghost parameters: the copies that were carried out, in order
+    c.param("ghost_files", TList("str"))
+    E = lambda v: V(v._e, v._e.entry)
+    obj = lambda v: sel(H(v, "obj"), v.self)
+    cs = lambda v0: v0.heap.list_get(SList(sel(H(v0, "copy_subdir"), obj(v0)), "str"))
+    fs = lambda v0: v0.heap.list_get(SList(sel(H(v0, "files"), obj(v0)), "str"))
+    loc = lambda v0: sel(H(v0, "location"), obj(v0))
+    pd = lambda v0: z3.Select(v0.heap.dict_val(SDict(sel(H(v0, "data"), v0.self), "str", "str")), z3.StringVal("page_dir"))
+    frm = lambda v0: PATH_JOIN(pd(v0), loc(v0))
+    to = lambda v0: PATH_JOIN(sel(H(v0, "page_dir"), v0.self), loc(v0))
+    pair = lambda a, b: SID(z3.Concat(a, SEP, b))
+    gd = lambda v: v.heap.list_get(v.val("ghost_dirs"))
+    gf = lambda v: v.heap.list_get(v.val("ghost_files"))
+    c.requires("settings_have_a_page_dir", lambda v: z3.Select(v.heap.dict_has(SDict(sel(H(v, "data"), v.self), "str", "str")), z3.StringVal("page_dir")))
+    c.requires("distinct_lists", lambda v: z3.Distinct(v.val("ghost_dirs").id, v.val("ghost_files").id, sel(H(v, "copy_subdir"), obj(v)), sel(H(v, "files"), obj(v))))
+    c.requires("ghosts_start_empty", lambda v: z3.And(z3.Length(gd(v)) == 0, z3.Length(gf(v)) == 0))
+
+    def dir_contrib(v0, k):
+        item = STR_OF(cs(v0)[k])
+        dst = PATH_JOIN(to(v0), item)
+        return z3.If(z3.And(INSIDE(RESOLVE(dst), RESOLVE(to(v0))), DIR_OK(k)), z3.Unit(pair(PATH_JOIN(frm(v0), item), dst)), z3.Empty(SI))
+
+    def file_contrib(v0, k):
+        item = STR_OF(fs(v0)[k])
+        return z3.If(FILE_OK(k), z3.Unit(pair(PATH_JOIN(frm(v0), item), to(v0))), z3.Empty(SI))
+
+    c.methods["resolve"] = lambda eng, path, e, args, recv: SStr(RESOLVE(eng.to_str(path, recv)))
+
+    def relative_to(eng, path, e, args, recv):
+        if "ValueError" not in getattr(path, "noraise", set()):
+            raise _Raise(INSIDE(eng.to_str(path, recv), eng.to_str(path, args[0])), "ValueError")
+        return SOpaque("relpath")
+    c.methods["relative_to"] = relative_to
+
+    def copytree(eng, path, e, args, recv):
+        k = path.env["_k0"].t
+        if "OSError" not in getattr(path, "noraise", set()):
+            raise _Raise(DIR_OK(k), "OSError")
+        g = path.env["ghost_dirs"]
+        path.heap.list_set(g, z3.Concat(path.heap.list_get(g), z3.Unit(pair(eng.to_str(path, args[0]), eng.to_str(path, args[1])))))
+        return SNone()
+    c.calls["copytree"] = copytree
+
+    def shcopy(eng, path, e, args, recv):
+        k = path.env["_k1"].t
+        if "OSError" not in getattr(path, "noraise", set()):
+            raise _Raise(FILE_OK(k), "OSError")
+        g = path.env["ghost_files"]
+        path.heap.list_set(g, z3.Concat(path.heap.list_get(g), z3.Unit(pair(eng.to_str(path, args[0]), eng.to_str(path, args[1])))))
+        return SNone()
+    c.calls["shutil.copy"] = shcopy
+    c.call_havoc["copytree"] = lambda eng, head: head.heap.list_set(head.env["ghost_dirs"], fresh("ghost_dirs", SI))
+    c.call_havoc["copy"] = lambda eng, head: head.heap.list_set(head.env["ghost_files"], fresh("ghost_files", SI))
+    c.opaque_attr = lambda eng, path, o, name: SOpaque("excattr")
+    c.opaque_index = lambda eng, path, container, idx, e: SOpaque("excarg")
+    c.assumed.append("copytree / shutil.copy either return or raise OSError (any exception is caught by the handlers anyway); Path.resolve and relative_to are pure; "
+                     "ghost lists record the (source, destination) pairs of the calls that returned")
+
+    def stable(v):
+        e = E(v)
+        return z3.And(v.self == e.self, obj(v) == obj(e), sel(H(v, "copy_subdir"), obj(v)) == sel(H(e, "copy_subdir"), obj(e)), sel(H(v, "files"), obj(v)) == sel(H(e, "files"), obj(e)),
+                      cs(v) == cs(e), fs(v) == fs(e), loc(v) == loc(e), pd(v) == pd(e), sel(H(v, "page_dir"), v.self) == sel(H(e, "page_dir"), e.self),
+                      v.val("ghost_dirs").id == e.val("ghost_dirs").id, v.val("ghost_files").id == e.val("ghost_files").id)
+
+    def unfold0(v):
+        e = E(v)
+        return [DIRS(0) == z3.Empty(SI), DIRS(v.k + 1) == z3.Concat(DIRS(v.k), dir_contrib(e, v.k))]
+
+    def unfold1(v):
+        e = E(v)
+        return [CFILES(0) == z3.Empty(SI), CFILES(v.k + 1) == z3.Concat(CFILES(v.k), file_contrib(e, v.k)), DIRS(0) == z3.Empty(SI)]
+    c.loop(0, invariants=[("dirs_copied_so_far", lambda v: gd(v) == DIRS(v.k)), ("files_untouched", lambda v: z3.Length(gf(v)) == 0),
+                          ("frame", lambda v: z3.And(stable(v), v.it.seq == cs(E(v)), v.from_path == frm(E(v)), v.to_path == to(E(v))))],
+           unfold=unfold0, variant=lambda v: z3.Length(v.it.seq) - v.k)
+    c.loop(1, invariants=[("files_copied_so_far", lambda v: gf(v) == CFILES(v.k)), ("dirs_done", lambda v: gd(v) == DIRS(z3.Length(cs(E(v))))),
+                          ("frame", lambda v: z3.And(stable(v), v.it.seq == fs(E(v)), v.from_path == frm(E(v)), v.to_path == to(E(v))))],
+           unfold=unfold1, variant=lambda v: z3.Length(v.it.seq) - v.k)
+    c.local("from_path", TStr())
+    c.local("to_path", TStr())
+    c.post_facts = lambda v0: [DIRS(0) == z3.Empty(SI), CFILES(0) == z3.Empty(SI)]
+
+    def post(v0, res, v1):
+        return z3.And(gd(v1) == DIRS(z3.Length(cs(v0))), gf(v1) == CFILES(z3.Length(fs(v0))))
+    c.ensures("every_copy_subdir_entry_inside_the_page_directory_and_every_other_file_is_copied_next_to_the_page", post)
+    c.no_raise = True
+    return c
